@@ -76,7 +76,8 @@ class ConstantStreamGenerator(Elaboratable):
             self.stream      = stream_type()
             self._data_width = len(self.stream.data)
 
-        self.start_position = Signal(range(self._data_length))
+        # One wider than the data, so 'just past the end' (a continuation that ends on a packet boundary) is representable.
+        self.start_position = Signal(range(self._data_length + 1))
 
         # If we have a maximum length width, include it in our I/O port.
         # Otherwise, use a constant.
@@ -224,6 +225,7 @@ class ConstantStreamGenerator(Elaboratable):
                     position_in_stream  .eq(start_position),
                     bytes_sent          .eq(0)
                 ]
+                past_the_end = (self.start_position >= self._data_length)
                 m.d.comb += [
                     rom_read_port.addr  .eq(start_position),
                 ]
@@ -235,8 +237,18 @@ class ConstantStreamGenerator(Elaboratable):
 
                 # Once the user requests that we start, move to our stream being valid.
                 with m.If(self.start & (self.max_length > 0)):
-                    m.next = 'STREAMING'
+                    with m.If(past_the_end):
+                        m.next = 'EMPTY'
+                    with m.Else():
+                        m.next = 'STREAMING'
 
+            # EMPTY -- nothing left to send from this start position: emit an empty packet (last without first)
+            with m.State('EMPTY'):
+                m.d.comb += [
+                    self.stream.valid  .eq(1),
+                    self.stream.last   .eq(1),
+                ]
+                m.next = 'DONE'
 
             # STREAMING -- we're actively transmitting data
             with m.State('STREAMING'):
